@@ -43,6 +43,8 @@ const (
 	sslRequestCode = 80877103
 	// byte size of the message length field
 	initMessageSizeLength = 4
+	// longest startup packet a Postgres server accepts (MAX_STARTUP_PACKET_LENGTH)
+	maxStartupPacketLength = 10000
 )
 
 // Message provides readers for various types and
@@ -103,8 +105,13 @@ func (m *MatchPostgres) Match(cx *layer4.Connection) (bool, error) {
 		return false, err
 	}
 
-	// Get actual message length
-	data := make([]byte, binary.BigEndian.Uint32(head)-initMessageSizeLength)
+	// Get actual message length; it includes the length field itself and must
+	// leave room for the 4-byte request code / protocol version
+	length := binary.BigEndian.Uint32(head)
+	if length < initMessageSizeLength+4 || length > maxStartupPacketLength {
+		return false, nil
+	}
+	data := make([]byte, length-initMessageSizeLength)
 	if _, err := io.ReadFull(cx, data); err != nil {
 		return false, err
 	}
